@@ -287,6 +287,8 @@ class C02(MsgProp):
             yield ("DEC " + hx(mk_frame(bytes([b]))), "one-byte-payload", True)
         for s in preamble_floods(r)[:3]:
             yield ("XITER " + hx(s), "false-preamble-flood", True)
+        for fr in nul_descriptor_frames(r)[::3]:
+            yield ("DEC " + hx(fr), "nul-in-descriptor-frame", True)
         # frames the real encoder produces from generated values of every type (text with 1..4-byte characters,
         # lists at every length class, MSM sets, bias lists), and variants of them with the checksum recomputed:
         # the decoder paths behind a *valid* prefix, which random payloads hardly ever reach
@@ -1127,6 +1129,8 @@ class C17(MsgProp):
             yield ("ENC 1029 i1 i2 i3 b%s" % hx(txt), "text-limits", True)
             txt = ("😀" * k + "a" * (100 - k)).encode()
             yield ("ENC 1029 i1 i2 i3 b%s" % hx(txt), "text-limits", True)
+        for fr in nul_descriptor_frames(r):
+            yield ("DEC " + hx(fr), "nul-in-descriptor-frame", True)
         # descriptor length above capacity in 1033 (5-bit and 8-bit length prefixes)
         for ln in (32, 33, 100, 255):
             bits = int_bits(1033, 12) + int_bits(7, 12) + int_bits(ln, 8) + [1, 0] * (4 * ln) + [0] * 64
